@@ -583,18 +583,15 @@ impl<'a> Serializer<'a> {
 
         let num = float.abs();
 
-        if self.options.is_compressed() && num < 1.0 {
-            buffer.push_str(
-                format!("{:.10}", num)[1..]
-                    .trim_end_matches('0')
-                    .trim_end_matches('.'),
-            );
+        let formatted = format!("{:.10}", num);
+        let digits = formatted.trim_end_matches('0').trim_end_matches('.');
+
+        // The leading zero is only dropped from what was actually printed: a
+        // number just below 1 may have been rounded up to "1".
+        if self.options.is_compressed() && digits.starts_with("0.") {
+            buffer.push_str(&digits[1..]);
         } else {
-            buffer.push_str(
-                format!("{:.10}", num)
-                    .trim_end_matches('0')
-                    .trim_end_matches('.'),
-            );
+            buffer.push_str(digits);
         }
 
         if buffer.is_empty() || buffer == "-" || buffer == "-0" {
